@@ -3,20 +3,21 @@
     re-read from the working tree on every run, are the ones of the model the theorems of
     Props/C03.v are about.  Property theorem only. *)
 From Coq Require Import ZArith List Bool.
-From SpyneV Require Import Base.Prelude C03.Model C03.Spec Gen.FlatKeys C03.SourceTie.
+From SpyneV Require Import Base.Prelude C03.Model C03.Spec C03.SourceIdioms Gen.FlatKeys C03.SourceTie.
 Import ListNotations.
 Open Scope Z_scope.
 
 Theorem C03_source_tie :
   (forall m nidx, src_s2cmi m nidx = s2cmi m nidx) /\
-  src_re_array_index = [92; 91; 40; 91; 48; 45; 57; 93; 43; 41; 93] /\
+  src_re_array_index = RE_TREE /\
   (forall a b, src_strict_reject a b = (a >? b)) /\
   (forall a b, src_strict_append a b = (a =? b)) /\
   src_empty_read = EMPTY /\ src_empty_written = EMPTY /\
   src_index_format = [37; 115; 91; 37; 100; 93] /\
-  src_qs_separators = [38; 59] /\ src_qs_equals = 61 /\ src_qs_plus = (43, 32) /\
+  src_qs_separators = [38; 59] /\ (forall s, src_qs_cut s = split_eq s []) /\ src_qs_plus = (43, 32) /\
   src_header_date_format = [37; 115; 44; 32; 37; 48; 50; 100; 32; 37; 115; 32; 37; 48; 52; 100; 32; 37; 48; 50; 100; 58; 37; 48; 50; 100; 58; 37; 48; 50; 100; 32; 71; 77; 84] /\   (* %s, %02d %s %04d %02d:%02d:%02d GMT *)
-  src_weekday = WEEKDAY /\ src_month = MONTH.
+  src_weekday = WEEKDAY /\ src_month = MONTH /\
+  (forall parts, src_natural_key_conv parts = conv_slice parts).
 Proof. exact source_tie. Qed.
 
 (** non-vacuity: the generated _s2cmi is the documented one (doctest of the source) *)
